@@ -102,7 +102,7 @@ Proof.
   apply wbind_inv in H2 as [(u & w2 & H1 & H2) | (e & H1 & _)]; [|discriminate H1].
   unfold wput in H1. injection H1 as <- <-.
   revert H2. match goal with |- ?k ?ww = _ -> _ => assert (frp w0 k) as K by fr_go; intros H2; apply (K _ _ _) in H2; [exact H2|] end.
-  intros j y Hy. exact (F _ _ Hy).
+  destruct F as (Nx & F). split; [exact Nx|]. intros j y Hy. exact (F _ _ Hy).
 Qed.
 Lemma frp_set_file_membership e fm : frp w0 (set_file_membership T e fm).
 Proof. unfold set_file_membership. fr_go. Qed.
